@@ -1,5 +1,6 @@
 import TextxVerif.Proofs.LoadTreeFrame
 import TextxVerif.Proofs.LoadTreeSpec
+import TextxVerif.Proofs.LoadTreeProcs
 /-!
 # C14 — user classes are constructed once with exactly the grammar attributes
 
@@ -98,6 +99,55 @@ theorem C14_init_order (table : List Load) (n : Nat) (L : Load) (sh : Sh α) (ho
   rw [h2, hown]
   simpa using (mainTrace_order L).sublist h1.sublist
 
+/-- **Object processors see the classes as they were before loading (general form).** Whatever the
+load tree, the faults and the nesting, and whether the attempt succeeds or fails: every object
+processor call of the attempt (event kind 4) carries the instrumentation snapshot of the state `sh`
+in which the attempt *started* — by then every parser of the attempt has given back its
+instrumentation and every collected attribute dict has been handed to its constructor.  (For a load
+nested in user code of another load `sh` is the state inside that load: the outer load's holdings
+are all the processors of the nested load see.) -/
+theorem C14_procs_see_start (table : List Load) (n : Nat) (L : Load) (sh : Sh α) (hg : Good sh)
+    (hown : sh.own = []) :
+    ∀ e, e ∈ (runF table n L sh).1.own → e.kind = 4 → ∃ cs, e.snap = snapOf cs sh := by
+  cases n with
+  | zero => intro e he; simp [runF, hown] at he
+  | succ n =>
+    have h0 : OwnP (QK (SnapAt sh)) sh := by intro e he; simp [hown] at he
+    have := runMain_procs (runF_env_frame table n) (tableEnv_own (runF table n) table) L sh hg h0
+    intro e he h4
+    exact this e he h4
+
+/-- **Object processors see un-instrumented classes with empty storage.** Loading starts with
+untouched classes: every object processor call of the attempt — in a successful attempt and in one
+that fails later (another object processor, a model processor) — finds, for every user class of its
+metamodel, no counter attribute, the class's own attribute-access methods, no cached originals and
+an empty per-object storage. -/
+theorem C14_procs_see_clean (table : List Load) (n : Nat) (L : Load) (orig : ClassId → α)
+    (next : Nat) (log : List Ev) :
+    let sh : Sh α := ⟨fun c => ⟨0, .real (orig c), none⟩, [], next, log, []⟩
+    ∀ e, e ∈ (runF table n L sh).1.own → e.kind = 4 → ∀ s, s ∈ e.snap → s = (0, false, false, 0) := by
+  intro sh e he h4 s hs
+  have hg : Good sh := ⟨fun c => ⟨orig c, 0, rfl⟩, List.nodup_nil, fun p hp => by simp [sh] at hp⟩
+  obtain ⟨cs, hsnap⟩ := C14_procs_see_start table n L sh hg rfl e he h4
+  rw [hsnap] at hs
+  simp only [snapOf, List.mem_map] at hs
+  obtain ⟨c, _, hc⟩ := hs
+  rw [← hc]
+  simp [sh, isInstr, countKeys]
+
+/-- The same is *not* true of the constructors: in a multi-file load the constructors of all models
+but the last run while the parsers of the later models still hold their instrumentation (the
+interpretation note in `notes/C14.md`); the statement above is about kind 4 for a reason. -/
+theorem C14_init_sees_clean_false :
+    ∃ (L : Load) (sh : Sh Nat), sh.own = [] ∧ (∀ c, sh.core c = ⟨0, .real c, none⟩) ∧ sh.attrs = [] ∧
+      (runF [] 1 L sh).2 = true ∧
+      ∃ e, e ∈ (runF [] 1 L sh).1.own ∧ e.kind = 3 ∧ e.snap = [(1, true, true, 2)] :=
+  ⟨.mk 1 [0] true (.obj (some 0) ⟨10, [], false⟩ []) none
+      [.mk 2 [0] true (.obj (some 0) ⟨20, [], false⟩ [.obj (some 0) ⟨21, [], false⟩ []]) none [] [] false [] ⟨20, [], false⟩]
+      [] false [⟨10, [], false⟩] ⟨10, [], false⟩,
+    ⟨fun c => ⟨0, .real c, none⟩, [], 0, [], []⟩, rfl, fun _ => rfl, rfl, by decide,
+    ⟨3, 1, 10, [(1, true, true, 2)]⟩, by decide, rfl, rfl⟩
+
 /-- **Exactly the grammar attributes.** What `_end_model_construction` passes to
 `__init__`: the rule's attributes in grammar order, and `parent` iff the object is
 contained — whatever else was stored on the object while loading. -/
@@ -170,6 +220,15 @@ example : (runF [mainOk, childBad] 3 mainOk clean).2 = true := by decide
 example : (runF [mainOk, childBad] 3 mainOk clean).1.log.map (·.snap) |>.contains [(2, true, true, 3)] := by decide
 example : (runF [mainOk, childBad] 3 mainOk clean).1.own.map Ev.key = mainTrace mainOk := by decide
 example : initTr (mainSums mainOk) = [(3, 1, 10), (3, 2, 21), (3, 2, 20)] := by decide
+/-- the object processors of that attempt (three calls, one of them in the imported file) and what
+they saw; the constructors before them saw counter 1 (the imported file's parser) resp. 0 -/
+example : (runF [mainOk, childBad] 3 mainOk clean).1.own.filter (·.kind == 4) =
+    [⟨4, 1, 10, [(0, false, false, 0)]⟩, ⟨4, 2, 21, [(0, false, false, 0)]⟩, ⟨4, 2, 20, [(0, false, false, 0)]⟩] := by decide
+example : (runF [mainOk, childBad] 3 mainOk clean).1.own.filter (·.kind == 3) =
+    [⟨3, 1, 10, [(1, true, true, 2)]⟩, ⟨3, 2, 21, [(0, false, false, 1)]⟩, ⟨3, 2, 20, [(0, false, false, 0)]⟩] := by decide
+/-- `Good` and `own = []` of `C14_procs_see_start` hold for the clean state -/
+example : Good clean ∧ clean.own = [] :=
+  ⟨⟨fun c => ⟨c, 0, rfl⟩, List.nodup_nil, fun p hp => by simp [clean] at hp⟩, rfl⟩
 end
 
 end LoadTree
